@@ -292,6 +292,8 @@ def _malformed(draw):
 def check_malformed(case):
     cls = C.PrivateKey if case["private"] else C.PublicKey
     v = GP.realize(case["value"])
+    if isinstance(v, str) and type(v) is not str or isinstance(v, bytes) and type(v) is not bytes:
+        return {"nontrivial": False, "labels": ["gray-subclass"], "gray": True}     # str / bytes subclasses: not asserted
     if case["via"] == "hex":
         if g.is_key(v):
             return {"nontrivial": False, "labels": ["valid-by-chance"]}
